@@ -222,6 +222,10 @@ func (c *Check) Run(sel []HarnessDef) int {
 			cfg.Workers = c.Workers
 		}
 		cfg.SecondCheck = tc.Second
+		cfg.Solver = tc.Solver
+		if tc.SolverMs > 0 {
+			cfg.SolverMs = tc.SolverMs
+		}
 		cfg.NoopPkgs = append(append([]string{}, gosym.DefaultNoop...), h.Noop...)
 		cfg.Stubs = h.Stubs
 		if len(h.NoopFuncs) > 0 {
@@ -317,6 +321,12 @@ func mergeTier(q, t TierCfg) TierCfg {
 	}
 	if t.Second != nil {
 		out.Second = t.Second
+	}
+	if t.Solver != "" {
+		out.Solver = t.Solver
+	}
+	if t.SolverMs != 0 {
+		out.SolverMs = t.SolverMs
 	}
 	return out
 }
